@@ -18,6 +18,7 @@ var families = map[string]func(*h.Run){
 	"C04": props.C04,
 	"C09": props.C09,
 	"C10": props.C10,
+	"C12": props.C12,
 	"C16": props.C16,
 	"C18": props.C18,
 	"C19": props.C19,
